@@ -353,13 +353,13 @@ class Cleanup:
     @staticmethod
     def suppress_useless_pass_statements(
         source: str,
-        sub: Callable = regex.compile(r"(?m)^( *)pass\n\1(?!\s)").sub,
+        sub: Callable = regex.compile(r"(?m)^( *)pass\n(?=(?: *#.*\n)*\1(?![\s#]))").sub,
     ) -> str:
         """Suppress all `pass` statements followed by a line with a same level of indentation.
 
         Argument `sub` [not to be explicitly provided.](developer_manual/index.html#default-argument-trick)
         """
-        return sub(r"\1", source)
+        return sub("", source)
 
 
 def centrifugate_hints(
